@@ -55,6 +55,15 @@ func initProbes(all bool) {
 	}
 }
 
+// fitEvery: FitRegion is asked for every fitEvery-th probe range.
+const fitEvery = 6
+
+// noStores is an empty store set: FitRegion then only reports which rules it fits against.
+type noStores struct{}
+
+func (noStores) GetStores() []*core.StoreInfo    { return nil }
+func (noStores) GetStore(uint64) *core.StoreInfo { return nil }
+
 type bundleSnap struct {
 	ID       string
 	Index    int
@@ -83,6 +92,7 @@ type snap struct {
 	bundle  map[string]bundleSnap
 	byKey   [][]string
 	apply   [][]string
+	fit     [][]string // FitRegion (empty region, empty store set): the rules it fits against, every fitEvery-th probe range
 	split   [][]string
 }
 
@@ -152,8 +162,19 @@ func observe(m *placement.RuleManager) *snap {
 	for _, k := range probeKeys {
 		s.byKey = append(s.byKey, canonReals(m.GetRulesByKey(k)))
 	}
-	for _, p := range probeRanges {
+	for i, p := range probeRanges {
 		s.apply = append(s.apply, canonReals(m.GetRulesForApplyRegion(p.region)))
+		if i%fitEvery == 0 {
+			var fr []string
+			for _, rf := range m.FitRegion(noStores{}, p.region).RuleFits {
+				if rf == nil {
+					fr = append(fr, "<nil>")
+				} else {
+					fr = append(fr, cc.one(rf.Rule))
+				}
+			}
+			s.fit = append(s.fit, fr)
+		}
 		var ks []string
 		for _, k := range m.GetSplitKeys(p.s, p.e) {
 			ks = append(ks, hex.EncodeToString(k))
@@ -245,6 +266,11 @@ func diffSnaps(a, b *snap) *diff {
 	}
 	for i, p := range probeRanges {
 		if d := listDiff("GetRulesForApplyRegion", p.name, a.apply[i], b.apply[i]); d != nil {
+			return d
+		}
+	}
+	for i := range a.fit {
+		if d := listDiff("FitRegion", probeRanges[i*fitEvery].name, a.fit[i], b.fit[i]); d != nil {
 			return d
 		}
 	}
@@ -351,6 +377,12 @@ func diffModel(md *model, s *snap) (d *diff, skipped int) {
 		if d := listDiff("GetRulesForApplyRegion", p.name, s.apply[i], exp); d != nil {
 			return d, skipped
 		}
+		if i%fitEvery == 0 && i/fitEvery < len(s.fit) {
+			// FitRegion is a consumer of the same answer: it must fit against exactly these rules
+			if d := listDiff("FitRegion", p.name, s.fit[i/fitEvery], exp); d != nil {
+				return d, skipped
+			}
+		}
 	}
 	for i, p := range probeRanges {
 		var exp []string
@@ -362,4 +394,73 @@ func diffModel(md *model, s *snap) (d *diff, skipped int) {
 		}
 	}
 	return nil, skipped
+}
+
+// flat lists every observed item as (class, item, value) in the priority order of diffSnaps.
+func (s *snap) flat() [][3]string {
+	var out [][3]string
+	add := func(class, item, v string) { out = append(out, [3]string{class, item, v}) }
+	for _, g := range groupIDs {
+		for _, id := range ruleIDs {
+			add("GetRule", g+"/"+id, s.rule[g+"/"+id])
+		}
+	}
+	add("GetAllRules", "", list(s.all))
+	add("GetRuleGroups", "", fmt.Sprint(s.groups))
+	for _, g := range groupIDs {
+		add("GetRuleGroup", g, s.group[g])
+	}
+	for _, g := range groupIDs {
+		add("GetRulesByGroup", g, list(s.byGroup[g]))
+	}
+	add("GetAllGroupBundles", "", fmt.Sprint(s.bundles))
+	for _, g := range groupIDs {
+		add("GetGroupBundle", g, s.bundle[g].String())
+	}
+	for i := range probeKeys {
+		add("GetRulesByKey", hex.EncodeToString(probeKeys[i]), list(s.byKey[i]))
+	}
+	for i, p := range probeRanges {
+		add("GetRulesForApplyRegion", p.name, list(s.apply[i]))
+	}
+	for i := range s.fit {
+		add("FitRegion", probeRanges[i*fitEvery].name, list(s.fit[i]))
+	}
+	for i, p := range probeRanges {
+		add("GetSplitKeys", p.name, list(s.split[i]))
+	}
+	return out
+}
+
+// neitherPreNorPost returns the first item of obs whose value is neither the value before nor the
+// value after an update (every single answer must show the update entirely or not at all).
+func neitherPreNorPost(pre, post, obs *snap) *diff {
+	a, b, o := pre.flat(), post.flat(), obs.flat()
+	for i := range o {
+		if o[i][2] != a[i][2] && o[i][2] != b[i][2] {
+			return &diff{o[i][0], o[i][1], o[i][2], "before: " + a[i][2] + " / after: " + b[i][2]}
+		}
+	}
+	return nil
+}
+
+// selfModel rebuilds the configured state from what the manager itself reports as configuration
+// (GetAllRules, GetRuleGroups). Comparing the key-range observables with it is the "index is
+// exact" clause without knowing the history (used where several writers commit in an unknown order).
+func selfModel(m *placement.RuleManager) *model {
+	md := newModel()
+	for _, r := range m.GetAllRules() {
+		rs := ruleSpec{Group: r.GroupID, ID: r.ID, Index: r.Index, Override: r.Override, StartHex: r.StartKeyHex, EndHex: r.EndKeyHex,
+			Role: string(r.Role), Count: r.Count, Labels: append([]string(nil), r.LocationLabels...), Iso: r.IsolationLevel}
+		for _, c := range r.LabelConstraints {
+			rs.Cons = append(rs.Cons, consSpec{Key: c.Key, Op: string(c.Op), Values: append([]string(nil), c.Values...)})
+		}
+		wellFormed(&rs, "")
+		rs.cs = rs.canon()
+		md.rules[[2]string{rs.Group, rs.ID}] = rs
+	}
+	for _, g := range m.GetRuleGroups() {
+		md.setGroup(groupSpec{ID: g.ID, Index: g.Index, Override: g.Override})
+	}
+	return md
 }
